@@ -6,6 +6,7 @@ pub mod mirror;
 pub mod props;
 pub mod rng;
 pub mod rt;
+pub mod simmon;
 pub mod simrun;
 pub mod spec;
 pub mod steplog;
